@@ -326,7 +326,7 @@ class FeatureInterval(AbstractFeatureInterval):
                 qualifiers[key] = set()
             qualifiers[key].add(val)
         if self.feature_types:
-            qualifiers[BioCantorQualifiers.FEATURE_TYPE.value] = self.feature_types
+            qualifiers[BioCantorQualifiers.FEATURE_TYPE.value] = set(self.feature_types)
         return qualifiers
 
     def to_gff(
@@ -681,7 +681,7 @@ class FeatureIntervalCollection(AbstractFeatureIntervalCollection):
 
     def export_qualifiers(self) -> Dict[Hashable, Set[str]]:
         """Exports qualifiers for GFF3/GenBank export"""
-        qualifiers = self.qualifiers.copy()
+        qualifiers = {key: set(vals) for key, vals in self.qualifiers.items()}
         for key, val in [
             [BioCantorQualifiers.FEATURE_COLLECTION_ID.value, self.feature_collection_id],
             [BioCantorQualifiers.FEATURE_COLLECTION_NAME.value, self.feature_collection_name],
@@ -694,7 +694,7 @@ class FeatureIntervalCollection(AbstractFeatureIntervalCollection):
                 qualifiers[key] = set()
             qualifiers[key].add(val)
         if self.feature_types:
-            qualifiers[BioCantorQualifiers.FEATURE_TYPE.value] = self.feature_types
+            qualifiers[BioCantorQualifiers.FEATURE_TYPE.value] = set(self.feature_types)
         return qualifiers
 
     def query_by_guids(self, id_or_ids: Union[UUID, List[UUID]]) -> Optional["FeatureIntervalCollection"]:
